@@ -480,6 +480,17 @@ def _pots(chk, ctx) -> None:
     chk.ob('C01.pots', 'State.pots:pending', P is not None, fi.loc,
            'eligibility level of a player = everything he paid (incl. the bet in front of him)',
            got=f'list `{P}`' if P else 'no list is filled with -payoffs[i]', want='-self.payoffs[i]')
+    if C is not None and P is None and A is not None:
+        # no eligibility list at all: is a player's level read straight from what he paid although his contribution is adjusted?
+        adj_c = [n for n in walk_no_nested(fi.node) if isinstance(n, ast.AugAssign) and isinstance(n.target, ast.Subscript)
+                 and isinstance(n.target.value, ast.Name) and n.target.value.id == C]
+        raw_levels = [n for n in walk_no_nested(fi.node) if isinstance(n, ast.Compare) and len(n.ops) == 1
+                      and any(m.eq(T.norm(x), '-self.payoffs[i]') for x in (n.left, n.comparators[0]))]
+        if adj_c and raw_levels:
+            chk.ob('C01.pots', 'State.pots:parallel_adjustments', False, ctx.loc(fi, raw_levels[0]),
+                   'what is taken out of a player\'s pot contribution (the dead ante when antes are not trimmed) is taken out of his eligibility level too',
+                   got=f'`{C}` is adjusted ({stmt_text(adj_c[0])}) but eligibility compares the unadjusted -self.payoffs[i]')
+            return
     if C is None or P is None or A is None:
         raise AnalysisError('State.pots: contribution / eligibility lists or the raked amount not recognisable')
     # the two per-player lists differ by the bet in front of the player and are adjusted alike afterwards
